@@ -144,6 +144,25 @@ def s_map(fn, seq):
     return [fn(x) for x in seq]
 
 
+def s_accum(acc, body, seq, kind):
+    """Accumulation loop `for x in seq: acc.append(body(x))` / `acc[k] = v` (frontend._accumulation_loop).  Concrete
+    sequence: the loop itself, in place.  Sequence of symbolic length and an accumulator that is still the empty list /
+    dict it was created as: the comprehension's symbolic value.  Anything else is outside the subset."""
+    if not isinstance(seq, SList):
+        for x in seq:
+            if kind == "list":
+                acc.append(body(x))
+            else:
+                k, v = body(x)
+                acc[k] = v
+        return acc
+    if kind == "list" and isinstance(acc, list) and not acc:
+        return s_map(body, seq)
+    if kind == "dict" and isinstance(acc, dict) and not acc:
+        return s_dictcomp(body, seq, single=True)
+    raise Undecided("accumulation over a sequence of symbolic length into a non-empty or symbolic accumulator")
+
+
 def s_genmap(fn, seq):
     """(fn(x) for x in seq): a symbolic-length sequence gives the same SList as a list comprehension; over a concrete
     iterable (a list, another generator) it stays a lazy Python generator, so `next(gen, default)` keeps its meaning."""
